@@ -47,18 +47,18 @@ func (k Kind) String() string {
 
 // Waiter is one caller of the wrapper's Acquire.
 type Waiter struct {
-	ID        int
-	Ctx       context.Context
-	Cancel    context.CancelFunc
-	goid      atomic.Int64
-	done      atomic.Bool
-	OK        bool
-	L         core.Listener
-	Arrived   time.Duration // virtual time since world start
-	Returned  time.Duration
-	Cancelled atomic.Bool
-	CancelAt  time.Duration
-	Completed bool // the driver completed the listener this waiter was granted
+	ID         int
+	Ctx        context.Context
+	Cancel     context.CancelFunc
+	goid       atomic.Int64
+	done       atomic.Bool
+	OK         bool
+	L          core.Listener
+	Arrived    time.Duration // virtual time since world start
+	Returned   time.Duration
+	Cancelled  atomic.Bool
+	CancelAt   time.Duration
+	Completed  bool          // the driver completed the listener this waiter was granted
 	DeadlineAt time.Duration // > 0: the caller's context carries this deadline (virtual time since world start)
 }
 
@@ -72,20 +72,24 @@ type busyCounter interface {
 
 // World is one scenario's universe.
 type World struct {
-	Kind     Kind
-	Cap      int
-	Strat    busyCounter
-	Default  *limiter.DefaultLimiter
-	Gate     *inject.GateLimiter
-	Lim      core.Limiter
-	Queue    *limiter.QueueBlockingLimiter
-	Reg      *inject.RecRegistry
-	Actor    *inject.Actor
-	Deadline time.Time
-	start    time.Time
+	Kind         Kind
+	Cap          int
+	Strat        busyCounter
+	Default      *limiter.DefaultLimiter
+	Gate         *inject.GateLimiter
+	Lim          core.Limiter
+	Queue        *limiter.QueueBlockingLimiter
+	Reg          *inject.RecRegistry
+	Actor        *inject.Actor
+	Deadline     time.Time
+	start        time.Time
 	nextDeadline time.Duration
-	total    int           // capacity of the underlying limiter (Cap + 1 janitor token for blocking / deadline)
-	janitor  core.Listener // token held for the whole scenario; its completion broadcasts and flushes helper goroutines
+	total        int           // capacity of the underlying limiter (Cap + 1 janitor token for blocking / deadline)
+	janitor      core.Listener // token held for the whole scenario; its completion broadcasts and flushes helper goroutines
+
+	Entered  atomic.Int64 // callers that have called Acquire
+	Returned atomic.Int64 // callers whose Acquire has returned
+	OnReturn func(wt *Waiter) // called in the caller's goroutine right after Acquire returned (after Returned was bumped)
 
 	mu      sync.Mutex
 	Waiters []*Waiter
@@ -233,9 +237,14 @@ func (w *World) SpawnWith(prep func(ctx context.Context, cancel context.CancelFu
 		w.mu.Unlock()
 		wt.Arrived = w.Now()
 		close(started)
+		w.Entered.Add(1)
 		l, ok := w.Lim.Acquire(wt.Ctx)
+		w.Returned.Add(1)
 		wt.L, wt.OK = l, ok
 		wt.Returned = w.Now()
+		if f := w.OnReturn; f != nil {
+			f(wt)
+		}
 		w.Tracef("waiter %d returned ok=%v listener=%v", wt.ID, ok, l != nil)
 		wt.done.Store(true)
 	}()
@@ -275,7 +284,7 @@ type Snapshot struct {
 	At         time.Duration `json:"at"`
 	Busy       int           `json:"busy"`
 	Free       int           `json:"free"`
-	Blocked    []int         `json:"blocked_waiters"`  // Acquire not returned, not cancelled, bound not reached
+	Blocked    []int         `json:"blocked_waiters"`   // Acquire not returned, not cancelled, bound not reached
 	GivingUp   []int         `json:"giving_up_waiters"` // Acquire not returned but cancelled / bound reached
 	Granted    []int         `json:"granted_waiters"`
 	Refused    []int         `json:"refused_waiters"`
@@ -341,15 +350,15 @@ func (w *World) Snap(tag string) Snapshot {
 
 // Final is the end state after Teardown.
 type Final struct {
-	Busy            int   `json:"busy"`
-	InFlight        int64 `json:"limiter_inflight_gauge"`
-	GateOutstanding int64 `json:"delegate_tokens_outstanding"`
-	DoubleCompleted int64 `json:"delegate_tokens_completed_twice"`
-	BacklogLen      int   `json:"backlog_len"`
-	Readmitted      int   `json:"sequential_acquires_granted_after_quiescence"`
-	Total           int   `json:"limit"`
-	ExtraRefused    bool  `json:"next_acquire_refused"`
-	Unreturned      []int `json:"waiters_never_returned"`
+	Busy               int   `json:"busy"`
+	InFlight           int64 `json:"limiter_inflight_gauge"`
+	GateOutstanding    int64 `json:"delegate_tokens_outstanding"`
+	DoubleCompleted    int64 `json:"delegate_tokens_completed_twice"`
+	BacklogLen         int   `json:"backlog_len"`
+	Readmitted         int   `json:"sequential_acquires_granted_after_quiescence"`
+	Total              int   `json:"limit"`
+	ExtraRefused       bool  `json:"next_acquire_refused"`
+	Unreturned         []int `json:"waiters_never_returned"`
 	ListenerOKMismatch []int `json:"waiters_with_listener_iff_ok_violated"`
 }
 
